@@ -210,6 +210,7 @@ func (s *server) onWebSocket(ctx *types.HttpContext, wsc *types.WebSocketConn) {
 			server_log.Debug("upgrading not existing transport")
 			wsc.Close()
 		} else {
+			transport.SetMaxHttpBufferSize(s.Opts().MaxHttpBufferSize())
 			transport.SetPerMessageDeflate(s.Opts().PerMessageDeflate())
 			vhook.Yield("server.upgrade.admitted")
 			client.MaybeUpgrade(transport)
